@@ -21,8 +21,9 @@ def simulate(name, n, seed, kind="c", maxfuncs=5, maxbody=25, maxdepth=3, exprle
     per = max(1, n // procs)
     jobs = []
     for j in range(procs):
-        cfg = tlc.cfg_text(constants=consts(maxfuncs, maxbody, maxdepth, exprlevel, True, kind, withviol), invariants=INV)
-        jobs.append(dict(name=f"{name}-{j}", root="NormMC", defs={}, cfg=cfg, workers=1, timeout=1800,
+        cfg = tlc.cfg_text(spec="VSpec" if withviol else "Spec", constants=consts(maxfuncs, maxbody, maxdepth, exprlevel, True, kind, withviol),
+                           invariants=INV + (["OneViolationInv"] if withviol else []))
+        jobs.append(dict(name=f"{name}-{j}", root="ViolMC" if withviol else "NormMC", defs={}, cfg=cfg, workers=1, timeout=1800,
                          simulate=f"num={per}", depth=depth, seed=seed * 1000 + j))
     rs = tlc.run_many(jobs)
     exports = []
@@ -33,8 +34,9 @@ def simulate(name, n, seed, kind="c", maxfuncs=5, maxbody=25, maxdepth=3, exprle
 
 
 def exhaustive(name, kind="c", maxfuncs=1, maxbody=5, maxdepth=2, withviol=False):
-    cfg = tlc.cfg_text(constants=consts(maxfuncs, maxbody, maxdepth, 0, False, kind, withviol), invariants=INV)
-    r = tlc.run(name=name, root="NormMC", defs={}, cfg=cfg, workers=16, timeout=1800)
+    cfg = tlc.cfg_text(spec="VSpec" if withviol else "Spec", constants=consts(maxfuncs, maxbody, maxdepth, 0, False, kind, withviol),
+                       invariants=INV + (["OneViolationInv"] if withviol else []))
+    r = tlc.run(name=name, root="ViolMC" if withviol else "NormMC", defs={}, cfg=cfg, workers=16, timeout=1800)
     return [r], r.exports
 
 
